@@ -1,1 +1,24 @@
-def hello := "world"
+/-
+  CifModel.Basic — shared vocabulary of every model module (core Lean only; no Mathlib).
+  A string of the C library is a NUL-terminated array of UTF-16 code units; the model uses `List Nat`.
+-/
+namespace CifModel
+
+/-- a UTF-16 code unit (`UChar`).  Kept an unbounded `Nat`; models that care state `< 65536` explicitly. -/
+abbrev CU := Nat
+/-- a UTF-16 string (`UChar *` without its terminator) -/
+abbrev Str := List CU
+/-- a result code of the C API (values in `CifModel.Gen.ErrCodes`) -/
+abbrev Code := Nat
+
+/-- ASCII helper for run-time use (the driver): the code units of a string. Not for use in `decide`d statements:
+    kernel reduction of `String` operations is very slow — use the `a!"…"` literal below instead. -/
+def asc (s : String) : Str := s.toList.map Char.toNat
+
+open Lean in
+/-- `a!"abc"` is the literal list `[97, 98, 99]` (expanded at parse time, so that the kernel only sees `Nat`s) -/
+macro "a!" s:str : term => do
+  let elems := s.getString.toList.map (fun c => Syntax.mkNumLit (toString c.toNat))
+  `(([$(elems.toArray),*] : List Nat))
+
+end CifModel
